@@ -26,6 +26,27 @@ CHECKS = {
         note='Python sequence equality is the meaning of "reproduce the input"; iterators without len() are outside.',
         technique='Lean 4 proof (decision-logic theorem, case analysis + omega) over a hand model; exhaustive differential correspondence',
         design='5 C02'),
+    'C04': dict(
+        text='Invariant proved over the tokenizer fold for every byte string: the parser never raises, every yielded message is '
+             'valid and re-encodes to its token; real-time messages correspond one-to-one, in order, to the defined real-time '
+             'bytes; the bytes of all other messages are a Sublist of the non-real-time input. Correspondence exhaustive over '
+             'all strings up to length 4/5 over a byte-class alphabet plus random streams; independent oracle on the implementation.',
+        note='Inputs are integers 0..255.',
+        technique='Lean 4 proof (fold invariant by induction, List.Sublist) over a hand model; exhaustive differential correspondence',
+        design='5 C04'),
+    'C05': dict(
+        text='Refinement theorem: every history of feed/feed_byte/get_message/pending/iter/next on a Parser answers, call by call, '
+             'like the abstract spec (bytes fed so far, number retrieved); chunk-independence (feed_append, any chunking) proved for '
+             'the tokenizer. Correspondence: all cut sets of short streams and random histories on real Parser/ParserQueue objects.',
+        note='Aliasing between tokenizer buffer and queued tokens is visible only to the correspondence. ParserQueue is tied by correspondence only.',
+        technique='Lean 4 proof (simulation relation, induction over op list) over a hand model; differential correspondence on op histories',
+        design='5 C05'),
+    'C06': dict(
+        text='Resynchronisation from ANY tokenizer state (reachable or not) for every valid message, prefix theorem for any byte prefix, '
+             'concatenation theorem, real-time bytes anywhere inside a sysex. Correspondence over prefixes x messages x insertion points.',
+        note='Inputs are integers 0..255.',
+        technique='Lean 4 proof (case analysis, induction over payload/list) over a hand model; differential correspondence',
+        design='5 C06'),
 }
 
 PENDING = ['C02', 'C03', 'C04', 'C05', 'C06', 'C07', 'C08', 'C09', 'C10', 'C11', 'C12', 'C13', 'C14', 'C15',
